@@ -160,7 +160,8 @@ def judge(ctx, case, res, mout):
 
 def check(ctx):
     for c, r, m in c01.execute(gen_cases(ctx)):
-        judge(ctx, c, r, m)
+        with ctx.guard(c):
+            judge(ctx, c, r, m)
 
 
 def replay(ctx, data):
@@ -169,7 +170,8 @@ def replay(ctx, data):
         pp = case['table']['periodic_prefix']
         case['table'] = [pp[i % len(pp)] for i in range(case['n'])]
     for c, r, m in c01.execute([case], workers=1):
-        judge(ctx, c, r, m)
+        with ctx.guard(c):
+            judge(ctx, c, r, m)
 
 
 if __name__ == '__main__':
